@@ -230,13 +230,13 @@ PROPERTIES["C02"] = {
 PROPERTIES["C11"] = {
     "level": "other",
     "level_text": "bounded symbolic verification: for EVERY history (symbolic per-sample errors/losses, symbolic epsilon) of the configured length the real early-stopping monitor agrees with a reference monitor written from the property statement at every step; for every content of the stored tensors ml::result_t returns exactly the statistics stored under each (trial, fold) and the true optimum trial",
-    "level_note": SRE_NOTE,
+    "level_note": SRE_NOTE + "; unit C11_fit replaces nano::ml::tune by a scripted driver at link time",
     "technique": SRE_TECH,
     "explanation": "C11: gboost::early_stopping_t::done/round/value/values over all histories of length k; ml::result_t::{add, store, stats, value, values, extra, optimum_trial} with distinct symbols per stored tensor (an index mix-up is a solver-visible violation).",
     "assumptions": SRE_ASSUME + ["error values boxed to [0,1000] (values >= DBL_MAX-eps would defeat the monitor's numeric_limits::max() sentinel and are outside the claim)"],
     "bounds": {"history length": "<= 5 (quick), <= 7 (thorough)", "patience": "1..4", "trials x folds": "<= 3 x 3", "samples per stored tensor": "1..2"},
-    "outside": ["whole fit() of linear / gradient-boosting models (virtual weak-learner pools, inner solvers, tuner threads): statistics 'recomputed from scratch by predicting with the stored model' are not covered",
-                "boosting model prediction = bias + sum of weak learners; fold averaging of the final model"],
+    "outside": ["the boosting rounds themselves and the per-fold statistics produced by them (inner solvers, weak-learner fitting, samplers): unit C11_fit replaces the tuning driver by a scripted one (symbolic per-fold models and error tensors) and covers the real code AFTER the driver: fold averaging, prediction = bias + sum of weak learners, final statistics recomputed on the fitted samples",
+                "fit() of linear models"],
     "units": [
         {"engine": "sre", "harness": "C11_monitor", "sources": ["C11_monitor.cpp"],
          "quick": ["mode=es;k=%d;pat=%d;valid=%d" % (k, p, v) for (k, p, v) in ((3, 1, 1), (5, 2, 1), (5, 3, 1), (4, 2, 0), (5, 4, 1), (5, 1, 1))] +
@@ -245,6 +245,13 @@ PROPERTIES["C11"] = {
                      ["mode=res;T=%d;F=%d;big=%d" % (t, f, b) for (t, f) in ((2, 2), (3, 2), (2, 3), (3, 3), (1, 1)) for b in (0, 1)],
          "encoded": ["nano::gboost::early_stopping_t::done", "nano::gboost::mean_error", "nano::ml::result_t::{add, store, stats, value, values, extra, optimum_trial}",
                      "nano::ml::store_stats", "nano::ml::load_stats", "nano::percentile (through store_stats)"]},
+        {"engine": "sre", "harness": "C11_fit", "sources": ["C11_fit.cpp"],
+         "quick": ["n=4;sub=1;T=1;F=2;wl=1", "n=5;sub=1;T=2;F=2;wl=2", "n=4;sub=0;T=1;F=2;wl=1", "n=5;sub=1;T=1;F=2;wl=3"],
+         "thorough": ["n=4;sub=1;T=1;F=2;wl=1", "n=5;sub=1;T=2;F=2;wl=2", "n=4;sub=0;T=1;F=2;wl=1", "n=5;sub=1;T=1;F=2;wl=3", "n=6;sub=1;T=3;F=2;wl=1", "n=4;sub=0;T=2;F=3;wl=1", "n=5;sub=1;T=1;F=3;wl=2"],
+         "budget": {"quick": {"deadline_s": 120, "max_paths": 5000}, "thorough": {"deadline_s": 900, "max_paths": 100000, "query_s": 30}},
+         "encoded": ["nano::gboost_model_t::fit (everything after the tuning driver: optimum trial, fold-model summation, wlearner::merge, scale(1/folds), predict, gboost::evaluate, selected(), result_t::store)",
+                     "nano::gboost_model_t::do_predict", "nano::learner_t::{fit_dataset, predict}", "nano::affine_wlearner_t::{do_predict, scale, try_merge}", "nano::ml::result_t::{optimum_trial, extra, store, stats}",
+                     "nano::targets_iterator_t::loop", "nano::flatten_loss_t<mse>::{value, error}"]},
     ],
 }
 
@@ -253,10 +260,10 @@ PROPERTIES["C19"] = {
     "level_text": "bounded symbolic verification: for every domain (symbolic min/max for real parameters, windowed concrete bounds for integer ones, both comparator kinds) and every history of assignments of the configured length (symbolic reals, NaN/inf/boundary values, integers, strings from a small alphabet) the real parameter_t accepts exactly the in-domain values, reads them back as assigned, and rejects the others with an exception leaving the previous value",
     "level_note": SRE_NOTE,
     "technique": SRE_TECH,
-    "explanation": "C19 (first sentence): parameter_t::make_{scalar,integer,scalar_pair,integer_pair}, operator= (double, int64, tuple, string), value<>/value_pair<>, write/read round trip against a reference model written from the property.",
+    "explanation": "C19: factory clause (unit C19_factory: every registered solver, line-search, loss, splitter, tuner, weak learner, linear model: id, defaults inside their domains, clone equality, independent modification with SYMBOLIC in-domain / out-of-domain values); first sentence: parameter_t::make_{scalar,integer,scalar_pair,integer_pair}, operator= (double, int64, tuple, string), value<>/value_pair<>, write/read round trip against a reference model written from the property.",
     "assumptions": SRE_ASSUME + ["integer parameters: symbolic real assignments boxed to [-5.75, 6.75] (float->int conversion enumerated by the solver); out-of-range float->int conversion is UB in the source and outside the claim"],
     "bounds": {"history length": "<= 3 (quick), <= 4 (thorough)", "integer window": "[-2,3]", "comparators": "all LE/LT combinations"},
-    "outside": ["parsing of arbitrary text (stod/stoll on garbage beyond the 4-string alphabet)", "enum parameters and the factory clause (defaults in domain, ids, clone equality): concrete enumeration, not a solver obligation - not claimed here"],
+    "outside": ["parsing of arbitrary text (stod/stoll on garbage beyond the 4-string alphabet)", "factory clause 'behaves identically' (behavioural equivalence of clones beyond equal parameters)", "data-source, generator and function factories (objects that need files / have no parameters / are covered by C06)"],
     "units": [
         {"engine": "sre", "harness": "C19_params", "sources": ["C19_params.cpp"],
          "quick": ["kind=fr;lo=%d;hi=%d;ops=3;ser=%d" % (a, b, a) for a in (0, 1) for b in (0, 1)] + ["kind=fr;lo=0;hi=1;ops=2;sp=%d" % s for s in (1, 2, 3, 4, 5)] +
@@ -267,6 +274,12 @@ PROPERTIES["C19"] = {
                      ["kind=ir;ops=3;lo=%d;hi=%d" % (a, b) for a in (0, 1) for b in (0, 1)] + ["kind=ip;lo=%d;hi=%d;mid=%d" % (a, b, c) for a in (0, 1) for b in (0, 1) for c in (0, 1)],
          "encoded": ["nano::parameter_t::make_scalar/_integer/_scalar_pair/_integer_pair", "nano::parameter_t::operator=(scalar/int64/tuple/string)", "(anonymous)::update(range_t/pair_range_t)",
                      "(anonymous)::check(LEorLT)", "nano::parameter_t::value / value_pair", "nano::parameter_t::read / write", "nano::operator==(parameter_t)"]},
+        {"engine": "sre", "harness": "C19_factory", "sources": ["C19_factory.cpp"], "flags": ["-fno-access-control"],
+         "quick": ["fac=solver;from=%d;count=1" % i for i in range(0, 36)] + ["fac=%s" % f for f in ("lsearchk", "lsearch0", "loss", "splitter", "tuner", "wlearner", "linear")],
+         "thorough": ["fac=solver;from=%d;count=1" % i for i in range(0, 40)] + ["fac=%s" % f for f in ("lsearchk", "lsearch0", "loss", "splitter", "tuner", "wlearner", "linear")],
+         "budget": {"quick": {"deadline_s": 60, "max_paths": 5000}, "thorough": {"deadline_s": 300, "max_paths": 50000}},
+         "encoded": ["nano::factory_t<T>::{ids, get}", "T::all() for solver, lsearch0, lsearchk, loss, splitter, tuner, wlearner, linear", "nano::configurable_t::{parameter, parameters, register_parameter}", "T::clone (clonable_t)",
+                     "nano::parameter_t::operator=(scalar / int64)", "nano::operator==(parameter_t)", "nano::typed_t::type_id"]},
     ],
 }
 
@@ -532,6 +545,8 @@ _FN_BASE = ["maxq", "maxquad", "maxhilb", "chained_lq", "chained_cb3I", "chained
 _FN_ENET = ["mse+ridge[1]", "mse+ridge[100]", "mse+ridge[10000]", "mse+ridge[1e+06]", "mse+lasso[1]", "mse+lasso[100]", "mse+lasso[10000]", "mse+lasso[1e+06]", "mse+elasticnet[1,1]", "mse+elasticnet[100,100]",
             "mse+elasticnet[10000,10000]", "mse+elasticnet[1e+06,1e+06]", "mae+ridge[1]", "mae+lasso[1]", "mae+elasticnet[1,1]", "hinge+ridge[1]", "hinge+lasso[1]", "hinge+elasticnet[1,1]",
             "cauchy+ridge[1]", "cauchy+lasso[1]", "cauchy+elasticnet[1,1]", "logistic+ridge[1]", "logistic+lasso[1]", "logistic+elasticnet[1,1]"]
+_FN_SMOOTH_HD = ["powell", "trid", "qing", "cauchy", "sargan", "sphere", "zakharov", "quadratic", "rosenbrock", "exponential", "dixon-price", "chung-reynolds", "axis-ellipsoid", "styblinski-tang",
+                 "schumer-steiglitz", "rotated-ellipsoid", "geometric-optimization"]
 _LOSSES = ["mae", "mse", "cauchy", "m-hinge", "s-hinge", "m-squared-hinge", "s-squared-hinge", "s-classnll", "m-savage", "s-savage", "m-tangent", "s-tangent", "m-logistic", "s-logistic", "s-exponential", "m-exponential", "pinball"]
 PROPERTIES["C06"] = {
     "level": "other",
@@ -540,13 +555,14 @@ PROPERTIES["C06"] = {
     "technique": SRE_TECH + "; symbolic differentiation of the executed value term",
     "explanation": "C06: function_t::vgrad of all benchmark functions and loss_t::{value, vgrad, error} of all losses on symbolic inputs.",
     "assumptions": SRE_ASSUME + ["inputs boxed: functions [-4,4]^d, loss outputs [-6,6], regression targets [-4,4]", "random benchmark functions (quadratic, kinks, enet_*) use their internally generated concrete data"],
-    "bounds": {"function dims": "1..3 (powell needs multiples of 4: not built at these dims)", "summands": "2", "loss outputs": "1..3"},
+    "bounds": {"function dims": "1..3 for all clauses; gradient = derivative and value-only = value+gradient additionally at 8 / 16 (quick) and 4..32 (thorough) dims for the smooth functions incl. powell", "summands": "2", "loss outputs": "1..3"},
     "outside": ["convexity inequality for objects whose value involves exp/log (over-approximated transcendental functions make the inequality undecidable; reported as skipped per path)",
                 "constraint kinds: gradient/definition covered by C05; linear/gboost objectives: C09", "dims > 3"],
     "units": [
         {"engine": "sre", "harness": "C06_functions", "sources": ["C06_functions.cpp"],
-         "quick": ["fn=%s;d=2" % f for f in _FN_BASE] + ["fn=%s;d=2" % f for f in ("mse+ridge[1]", "mse+lasso[100]", "mse+elasticnet[1,1]", "mae+elasticnet[1,1]", "hinge+elasticnet[1,1]", "cauchy+ridge[1]", "logistic+lasso[1]")],
-         "thorough": ["fn=%s;d=%d" % (f, d) for f in _FN_BASE + _FN_ENET for d in (1, 2, 3)],
+         "quick": ["fn=%s;d=2" % f for f in _FN_BASE] + ["fn=%s;d=2" % f for f in ("mse+ridge[1]", "mse+lasso[100]", "mse+elasticnet[1,1]", "mae+elasticnet[1,1]", "hinge+elasticnet[1,1]", "cauchy+ridge[1]", "logistic+lasso[1]")] +
+                  ["fn=%s;d=8;cvx=0" % f for f in _FN_SMOOTH_HD] + ["fn=powell;d=4;cvx=0", "fn=maxq;d=8;cvx=0", "fn=chained_lq;d=8;cvx=0", "fn=powell;d=16;cvx=0", "fn=rosenbrock;d=16;cvx=0"],
+         "thorough": ["fn=%s;d=%d" % (f, d) for f in _FN_BASE + _FN_ENET for d in (1, 2, 3)] + ["fn=%s;d=%d;cvx=0" % (f, d) for f in _FN_SMOOTH_HD for d in (4, 8, 12, 16, 32)] + ["fn=maxq;d=8;cvx=0", "fn=chained_lq;d=8;cvx=0"],
          "budget": {"quick": {"deadline_s": 45, "max_paths": 3000, "query_s": 8}, "thorough": {"deadline_s": 300, "max_paths": 50000, "query_s": 20}},
          "encoded": ["nano::function_t::vgrad", "function_<id>_t::do_vgrad for every registered id", "nano::function_t::{convex, strong_convexity, make}"]},
         {"engine": "sre", "harness": "C06_losses", "sources": ["C06_losses.cpp"],
